@@ -289,9 +289,16 @@ def gen_c18_cfg(rng, max_days=60):
         cfg['market2'] = m2
         cfg['universe']['dates']['EQ:ZZZ'] = cfg['start']
     if cfg['alpha']['kind'] == 'topn_mom':
-        cfg['alpha']['lookback'] = rng.choice([1, 2, 3, 5])
+        cfg['alpha']['lookback'] = rng.choice([1, 1, 1, 2, 3])
         cfg['alpha']['top'] = rng.randint(1, len(assets) - 1)
         cfg['burn_in'] = None
+        if rng.random() < 0.6:
+            # rank-based model, first rebalance on the first close: every momentum is 0.0, the order of the INITIAL
+            # members decides
+            cfg['rebalance'] = 'daily'
+            cfg.pop('weekday', None)
+            n_init = sum(1 for d in dates.values() if d == cfg['start'])
+            cfg['alpha']['top'] = rng.randint(1, max(1, n_init - 1))
     if cfg['alpha']['kind'] == 'fixed':
         cfg['alpha']['weights'] = {'EQ:' + ren[a[3:]]: w for a, w in cfg['alpha']['weights'].items()}
         if rng.random() < 0.6:
